@@ -42,6 +42,16 @@ Proof.
   cbn [cstep fst snd]. unfold upd. rewrite Nat.eqb_refl. reflexivity.
 Qed.
 
+Theorem C16_cstep_is_native_get : forall spans st a i c k, heap_get (heap st) a = Some (CMap (c i)) ->
+  native_body "MAP" "MAP_GET" [VObj a; k] spans st = ROk (snd (cstep st c (OGet i k))) st /\
+  fst (cstep st c (OGet i k)) = c.
+Proof. intros spans st a i c k H. rewrite (map_get_spec spans st a (c i) k H). split; reflexivity. Qed.
+
+Theorem C16_cstep_is_native_contains : forall spans st a i c k, heap_get (heap st) a = Some (CMap (c i)) ->
+  native_body "MAP" "MAP_CONTAINS_KEY" [VObj a; k] spans st = ROk (snd (cstep st c (OHas i k))) st /\
+  fst (cstep st c (OHas i k)) = c.
+Proof. intros spans st a i c k H. rewrite (map_contains_spec spans st a (c i) k H). split; reflexivity. Qed.
+
 (** non-vacuity: a history with an overwrite through an equal-but-different key (0 and -0), a second
     map, and a NaN key (never found again) *)
 Example C16_history_example : forall st,
